@@ -2,13 +2,14 @@
   Props/C20Src.lean — C20, source level (PARTIAL tie): the sheet printer `_Repr` of task.py is translated on every run
   (tools/extract_print.py → Extracted/PrintSrc.lean).  Proved in general (Lemmas/PrintSrcA.lean, PrintSrcB.lean): the cell texts for EVERY
   field name, the rows `__print_task_subtree` hands to the table (depth-first, children on/off, the colour rule) and the value of `repr`
-  (header row + the rows of every task of the list = the model's `sheet`).  The layout numbers (`__calc_max_title_len`,
-  `__max_field_len`) are tied by kernel-evaluated runs of the translated program on a concrete WBS (Lemmas/PrintSrcCheck.lean,
-  PrintSrcCheckB.lean - imported here, so a translated source that no longer reproduces them breaks this module): tests at the level
-  of the kernel, not theorems about every input.  `TextTable` / `colored_text` are a primitive whose meaning is the model's `render`.
+  (header row + the rows of every task of the list = the model's `sheet`), and the two layout numbers (`__calc_max_title_len`,
+  `__max_field_len`, Lemmas/PrintSrcC.lean).  `TextTable` / `colored_text` (utils.py) are a primitive whose meaning is the model's
+  `render`.  The kernel-evaluated runs of the translated program on a concrete WBS (Lemmas/PrintSrcCheck.lean, PrintSrcCheckB.lean)
+  stay imported as regression tests beside the theorems.
 -/
 import PjVerif.Lemmas.PrintSrcA
 import PjVerif.Lemmas.PrintSrcB
+import PjVerif.Lemmas.PrintSrcC
 import PjVerif.Lemmas.PrintSrcCheck
 import PjVerif.Lemmas.PrintSrcCheckB
 namespace Pj
@@ -58,5 +59,19 @@ theorem C20_source_repr (S : PrintSrc.Lib) (pts : Nat → PrintSrc.PyTask) (th :
       .ok (.atom (S.s (sheet (PrintSrc.tsOf S pts) n tasks fields children (PrintSrc.toTheme th))),
         PrintSrc.logOfRows S (PrintSrc.sheetRows (PrintSrc.tsOf S pts) n tasks fields children (PrintSrc.toTheme th))) :=
   PrintSrc.interpRepr_eq pts th hS hc F n tasks fields children hd hF
+
+/-- the translated `_Repr.__calc_max_title_len` / `__max_field_len`: the width of the name column (indentation included) and of any
+    other column (header + 1, the longest cell text over the tasks and their descendants) -/
+theorem C20_source_title_len (S : PrintSrc.Lib) (pts : Nat → PrintSrc.PyTask) (hS : S.OK) (F n t level cur : Nat)
+    (hd : PrintSrc.DepthOK pts (n + 1) t) (hF : n + 1 ≤ F) :
+    PrintSrc.interpTitleLen S pts F t level cur =
+      .ok (.atom (.num ((PrintSrc.titleLen (PrintSrc.tsOf S pts) (n + 1) level t cur : Nat) : Rat))) :=
+  PrintSrc.interpTitleLen_eq pts hS F n t level cur hd hF
+
+theorem C20_source_max_field_len (S : PrintSrc.Lib) (pts : Nat → PrintSrc.PyTask) (hS : S.OK) (F n : Nat) (tasks : List Nat)
+    (field : Str) (hd : ∀ t ∈ tasks, PrintSrc.DepthOK pts n t) (hF : n + 4 ≤ F) :
+    PrintSrc.interpMaxFieldLen S pts F tasks field =
+      .ok (.atom (.num ((PrintSrc.maxFieldLen (PrintSrc.tsOf S pts) field (n + 1) tasks : Nat) : Rat))) :=
+  PrintSrc.interpMaxFieldLen_eq pts hS F n tasks field hd hF
 
 end Pj
